@@ -86,6 +86,31 @@ Definition request_message (r : tx_request) (content_length : N) : str :=
   ++ (if request_adds_content_length r then content_length_line content_length else [])
   ++ CRLF.
 
+(* the builder interface of tx_request / tx_response: every member function that changes the header string *)
+Inductive bop :=
+  | BSet (s : str)                     (* set_header_string *)
+  | BAddId (i : nat) (v : str)         (* add_header(header_field::id, value) *)
+  | BAddFree (n v : str)               (* add_header(name, value) *)
+  | BAddCL (n : N)                     (* add_content_length_header *)
+  | BServer | BContentHttp.            (* tx_response::add_server_header / add_content_http_header *)
+
+Definition bop_headers (h : str) (b : bop) : str :=
+  match b with
+  | BSet s => s
+  | BAddId i v => h ++ to_header (standard_name i) v
+  | BAddFree n v => h ++ to_header n v
+  | BAddCL n => h ++ content_length_line n
+  | BServer => h ++ server_header_line
+  | BContentHttp => h ++ content_http_header_line
+  end.
+
+Definition request_ops_message (m u : str) (ma mi : byte) (h0 : str) (ops : list bop) (n : N) : str :=
+  request_message (mk_tx_request m u ma mi (fold_left bop_headers ops h0)) n.
+
+Definition response_ops (reason : str) (status : N) (h0 : str) (ops : list bop) : tx_response :=
+  let r := tx_response_of_reason reason status h0 in
+  mk_tx_response (rs_status r) (rs_reason r) (rs_major r) (rs_minor r) (fold_left bop_headers ops h0).
+
 (* chunk_header::to_string, last_chunk::to_string *)
 Definition ext_string (ext : str) : str :=
   match ext with [] => [] | _ => [59; 32] ++ ext end.
